@@ -127,6 +127,13 @@ impl Stage<'_> {
             }
         }
     }
+
+    /// Number of boxed systems in every group of this stage (the list that
+    /// is really executed). Verification hook, read-only.
+    #[cfg(feature = "verif-hooks")]
+    pub fn verif_group_sizes(&self) -> Vec<usize> {
+        self.groups.iter().map(|group| group.len()).collect()
+    }
 }
 
 #[derive(Default)]
